@@ -7,6 +7,13 @@ Property theorems only (model: Model/LiveSet.lean, lemmas: Proofs/LiveSet*.lean)
 likelihood order, `nested` is non-decreasing and below every live point, `nested ++ live` is a
 permutation of `init ++ hist` (the initial live set plus the accepted replacements), and the
 counts of nested samples, insertion indices and accepted points all equal the iteration number.
+
+Scope: `consume` is one atomic step.  Checkpoint + resume is the identity on this state only for
+checkpoints written at iteration boundaries (`update_state`, end of run).  A checkpoint written inside
+`consume_sample` (`checkpoint_on_training=True`, or a signal handler) is NOT covered:
+`resume_mid_consume_breaks_inv` below is the machine-checked counter-example; on the real code these are the
+known findings `NestedSampler.train_proposal:checkpoint_on_training:checkpoint-inside-consume_sample` (F25)
+and `NestedSampler.consume_sample:interrupt-between-evidence-increment-and-insertion-index` (F4).
 -/
 namespace NessaiVerif.C01
 open NessaiVerif.Np NessaiVerif.LiveSet
@@ -30,8 +37,12 @@ theorem populate_inv (n : Nat) (hn : 1 ≤ n) (cands rest : List Cand) (s : St)
     obtain ⟨v, _, hfin, rfl⟩ := storeOf_some hc
     exact ⟨hfin, rfl⟩
 
-example : ∃ s rest, populate (St.new 3) Ex.cands0 = .ok (s, rest) ∧ s.live.map (·.id) = [2, 1, 5] :=
-  ⟨Ex.s0, Ex.rest0, Ex.populate_s0, by decide⟩
+example : Inv Ex.s0.live Ex.s0 ∧ Ex.s0.live.length = 3 ∧ SortedL Ex.s0.live ∧ Ex.s0.iter = 0 ∧ Ex.s0.nested = [] ∧
+    Ex.s0.idx = [] ∧ (∀ p ∈ Ex.s0.live, p.logP = .fin ∧ p.it = 0) ∧
+    ∃ used, Ex.cands0 = used ++ Ex.rest0 ∧ Ex.s0.live.Perm (used.filterMap storeOf) :=
+  populate_inv 3 (by omega) Ex.cands0 Ex.rest0 Ex.s0 Ex.populate_s0
+
+example : Ex.s0.live.map (·.id) = [2, 1, 5] := by decide
 
 /-- **One iteration.**  From any state satisfying the invariant, a successful `consume_sample`
 removes exactly the head of the live set, which is a minimum; skips every candidate failing the
@@ -265,6 +276,9 @@ theorem filter_spec (m : Option Int) (c : Cand) (v : Int) (h : accepts m c = som
   · rw [if_neg h0] at he
     exact ⟨hp, hg, Or.inr ⟨h0, he⟩, by rw [he]; simp⟩
 
+example : gtMin 7 (some 3) = true :=
+  (filter_spec (some 3) ⟨5, .fin 0, .fin 7, .fin, true, true⟩ 7 (by decide)).2.1
+
 example : accepts (some 3) ⟨5, .fin 0, .fin 7, .fin, true, true⟩ = some 7 ∧
     accepts (some 3) ⟨5, .nan, .fin 7, .fin, true, true⟩ = none ∧
     accepts (some 3) ⟨5, .fin 3, .fin 7, .fin, true, true⟩ = none := by decide
@@ -313,7 +327,8 @@ theorem run_prior_finite_in_bounds (init : List Pt) (k : Nat) (s s' : St) (cands
         rw [hc]
         simp [hx]
 
-example : ∀ p ∈ Ex.s1.nested ++ Ex.s1.live, p.logP = .fin ∧ p.inB = true := by decide
+example : ∀ p ∈ Ex.s1.nested ++ Ex.s1.live, p.logP = .fin ∧ p.inB = true :=
+  run_prior_finite_in_bounds Ex.s0.live 1 Ex.s0 Ex.s1 Ex.rest0 Ex.rest1 Ex.inv_s0 (by decide) (by decide) Ex.run1_s0
 
 /-- The contract is needed: the sampler itself only tests `logP != -inf`, so a candidate whose
 log-prior is NaN (or `+inf`) is accepted into the live set by `consume_sample` — only
@@ -322,5 +337,30 @@ theorem run_prior_finite_fails_without :
     (consume Ex.s0 [⟨7, .fin 5, .fin 5, .nan, false, true⟩]).toOption.map
         (fun r => r.1.live.map (fun p => (p.id, p.logP, p.inB)))
       = some [(7, .nan, false), (1, .fin, true), (5, .fin, true)] := by decide
+
+/-- **The invariant does not survive a checkpoint written inside `consume_sample`.**  `consume` is
+`beginConsume` (record the worst point, count the iteration) followed by `finishConsume` (replace it).
+The state after `beginConsume` alone — what a mid-iteration checkpoint pickles — violates the invariant
+(one insertion index short; `nested ++ live` holds the worst point twice), and the resumed run, which
+restarts `consume_sample` from the top on that state, records the same point a second time and stays one
+insertion index short for ever.  Concrete 3-point state `Ex.s0`. -/
+theorem resume_mid_consume_breaks_inv :
+    Inv Ex.s0.live Ex.s0 ∧
+    (∀ cands, consume Ex.s0 cands = finishConsume Ex.m0 cands) ∧
+    beginConsume Ex.s0 = some Ex.m0 ∧ ¬ Inv Ex.s0.live Ex.m0 ∧
+    consume Ex.m0 Ex.rest0 = .ok (Ex.m1, Ex.rest1) ∧
+    Ex.m1.nested.map (·.id) = [2, 2] ∧ Ex.m1.idx.length + 1 = Ex.m1.iter ∧
+    ¬ (Ex.m1.nested ++ Ex.m1.live).Perm (Ex.s0.live ++ Ex.m1.hist) ∧ ¬ Inv Ex.s0.live Ex.m1 := by
+  refine ⟨Ex.inv_s0, ?_, Ex.begin_s0, ?_, Ex.consume_m0, by decide, by decide, ?_, ?_⟩
+  · intro cands
+    rw [consume_eq_begin_finish, Ex.begin_s0]
+  · intro h
+    exact absurd h.ilen (by decide)
+  · intro h
+    exact absurd h.length_eq (by decide)
+  · intro h
+    exact absurd h.ilen (by decide)
+
+example : ¬ Inv Ex.s0.live Ex.m1 := resume_mid_consume_breaks_inv.2.2.2.2.2.2.2.2
 
 end NessaiVerif.C01
